@@ -33,13 +33,14 @@ CONSTANTS Params,     \* set of [role, slot, quick, slow, thr, start]; role \in 
           Horizon,    \* the environment arms / cancels only while now < Horizon
           MaxNow,     \* the clock stops here
           Sched,      \* "any" | "prompt"
-          Weaken,
+          Weakens,    \* set of guard removals to explore (chosen in Init); {"none"} = the faithful spec
           Parts,      \* subset of {"timer", "ctl"}: which half (chosen in Init; the halves share no action)
           Heights,    \* ctl: heights
           MaxCRound,  \* ctl: instance rounds 1..MaxCRound
           Cutoff      \* ctl: instance.CutoffRound
 
 VARIABLES part,       \* "timer" | "ctl"
+          wk,         \* the ONE guard this behaviour runs without ("none": faithful)
           p,          \* parameters of this timer (role class, slot duration, allowances, slot start)
           now,        \* clock
           armed,      \* RoundTimer.round (atomic); 0 = never armed
@@ -51,11 +52,13 @@ VARIABLES part,       \* "timer" | "ctl"
           inst,       \* ctl: height -> [st, round, decided, stopped]
           rcs,        \* ctl: round-change messages broadcast so far
           tarm,       \* ctl: the instance's timer as seen by the instance: [n |-> armings, round |-> last round]
+          cbad,       \* ctl: monitor flag, "" or what the last offending OnTimeout did (a state variable, so that TLC
+                      \*      checks it on every transition even under a VIEW)
           act
-tvars == <<part, p, now, armed, pending, cancelled, cancelAt, fired, lastAct>>
+tvars == <<part, wk, p, now, armed, pending, cancelled, cancelAt, fired, lastAct>>
 cvars == <<cH, inst, rcs, tarm>>
-vars == <<tvars, cvars, act>>
-view == <<tvars, cvars>>
+vars == <<tvars, cvars, cbad, act>>
+view == <<tvars, cvars, cbad>>
 
 Rounds == 1..MaxRound
 
@@ -74,18 +77,20 @@ Deadline(q, r, t, thr, fromNow) ==
 
 RefDeadline(q, r, t) == Deadline(q, r, t, q.thr, FALSE)
 CodeDeadline(q, r, t) ==
-    Deadline(q, r, t, IF Weaken = "quickThresholdOffByOne" THEN q.thr + 1 ELSE q.thr,
-             Weaken = "deadlineFromNowNotSlotStart")
+    Deadline(q, r, t, IF wk = "quickThresholdOffByOne" THEN q.thr + 1 ELSE q.thr,
+             wk = "deadlineFromNowNotSlotStart")
 
 ----------------------------------------------------------------------------
 NoInst == [st |-> "none", round |-> 0, decided |-> FALSE, stopped |-> FALSE]
 
+CtlWeakens == {"ctlNoRoundCheck", "ctlNoDecidedCheck", "ctlNoStopCheck"}
 Init == /\ part \in Parts
+        /\ wk \in {x \in Weakens : x = "none" \/ ((x \in CtlWeakens) <=> (part = "ctl"))}
         /\ p \in (IF part = "timer" THEN Params ELSE {CHOOSE q \in Params : TRUE})
         /\ now = 0 /\ armed = 0 /\ pending = {} /\ cancelled = FALSE /\ cancelAt = -1
         /\ fired = <<>> /\ lastAct = -1
-        /\ cH = 0 /\ inst = [h \in Heights |-> NoInst] /\ rcs = 0 /\ tarm = [n |-> 0, round |-> 0]
-        /\ act = [name |-> "init", part |-> part, p |-> p, cutoff |-> Cutoff]
+        /\ cH = 0 /\ inst = [h \in Heights |-> NoInst] /\ rcs = 0 /\ tarm = [n |-> 0, round |-> 0] /\ cbad = ""
+        /\ act = [name |-> "init", part |-> part, p |-> p, cutoff |-> Cutoff, weaken |-> wk]
 
 Due(t) == {w \in pending : w.due <= t}
 
@@ -99,33 +104,33 @@ DoArm(r, t) ==
     /\ pending' = {[w EXCEPT !.sup = w.sup \/ t < w.ref] : w \in pending}
                   \cup {[round |-> r, due |-> CodeDeadline(p, r, t), ref |-> RefDeadline(p, r, t), sup |-> FALSE]}
     /\ act' = [name |-> "Arm", r |-> r, at |-> t]
-    /\ UNCHANGED <<part, p, cancelled, cancelAt, fired, cvars>>
+    /\ UNCHANGED <<part, wk, p, cancelled, cancelAt, fired, cvars, cbad>>
 
 (* the waiter's timer channel is ready at instant t and the select takes it *)
 DoExpire(w, t) ==
     /\ w \in pending /\ t >= w.due
     /\ Len(fired) <= MaxRound + 1
-    /\ LET calls == (armed = w.round \/ Weaken = "noRoundCheckOnWake") IN
-       /\ pending' = IF Weaken = "tickerNotTimer" /\ calls THEN pending ELSE pending \ {w}
+    /\ LET calls == (armed = w.round \/ wk = "noRoundCheckOnWake") IN
+       /\ pending' = IF wk = "tickerNotTimer" /\ calls THEN pending ELSE pending \ {w}
        /\ fired' = IF calls
                    THEN Append(fired, [round |-> w.round, early |-> t < w.ref, stale |-> armed # w.round,
                                        sup |-> w.sup, afterCancel |-> cancelled /\ cancelAt < w.due])
                    ELSE fired
        /\ act' = [name |-> "Expire", r |-> w.round, cb |-> calls, at |-> t]
-    /\ UNCHANGED <<part, p, armed, cancelled, cancelAt, cvars>>
+    /\ UNCHANGED <<part, wk, p, armed, cancelled, cancelAt, cvars, cbad>>
 
 (* ctx.Done() wins the select *)
 DoDrop(w) ==
-    /\ cancelled /\ Weaken # "cancelIgnored" /\ w \in pending
+    /\ cancelled /\ wk # "cancelIgnored" /\ w \in pending
     /\ pending' = pending \ {w}
     /\ act' = [name |-> "Drop", r |-> w.round]
-    /\ UNCHANGED <<part, p, armed, cancelled, cancelAt, fired, cvars>>
+    /\ UNCHANGED <<part, wk, p, armed, cancelled, cancelAt, fired, cvars, cbad>>
 
 DoCancel(t) ==
     /\ ~cancelled
     /\ cancelled' = TRUE /\ cancelAt' = t
     /\ act' = [name |-> "Cancel", at |-> t]
-    /\ UNCHANGED <<part, p, armed, pending, fired, cvars>>
+    /\ UNCHANGED <<part, wk, p, armed, pending, fired, cvars, cbad>>
 
 Stamp == lastAct' = IF Sched = "prompt" THEN now ELSE lastAct
 Arm(r) == EnvMay /\ DoArm(r, now) /\ Stamp /\ UNCHANGED now
@@ -136,10 +141,10 @@ Advance ==
     /\ part = "timer" /\ now < MaxNow
     /\ (now < Horizon \/ pending # {})
     /\ (Sched = "prompt" => /\ Due(now) = {}
-                            /\ ~(cancelled /\ Weaken # "cancelIgnored" /\ pending # {}))
+                            /\ ~(cancelled /\ wk # "cancelIgnored" /\ pending # {}))
     /\ now' = now + 1
     /\ act' = [name |-> "Advance", to |-> now + 1]
-    /\ UNCHANGED <<part, p, armed, pending, cancelled, cancelAt, fired, lastAct, cvars>>
+    /\ UNCHANGED <<part, wk, p, armed, pending, cancelled, cancelAt, fired, lastAct, cvars, cbad>>
 
 ----------------------------------------------------------------------------
 (* controller half *)
@@ -154,7 +159,7 @@ CStart(h) ==
                                   ELSE IF inst[x].st = "run" THEN [inst[x] EXCEPT !.stopped = TRUE] ELSE inst[x]]
     /\ tarm' = [n |-> tarm.n + 1, round |-> 1]
     /\ act' = [name |-> "CStart", h |-> h]
-    /\ UNCHANGED <<rcs, tvars>>
+    /\ UNCHANGED <<rcs, tvars, cbad>>
 
 (* f+1 round-change messages for round r > State.Round: uponChangeRoundPartialQuorum bumps the round and arms the
    timer first; its round-change broadcast is refused once the new round reached instance.CutoffRound *)
@@ -164,7 +169,7 @@ CBump(r) ==
     /\ rcs' = IF r < Cutoff THEN rcs + 1 ELSE rcs
     /\ tarm' = [n |-> tarm.n + 1, round |-> r]
     /\ act' = [name |-> "CBump", h |-> cH, r |-> r]
-    /\ UNCHANGED <<cH, tvars>>
+    /\ UNCHANGED <<cH, tvars, cbad>>
 
 (* UponDecided with a quorum certificate of round r for height h (stored or not): the instance becomes decided
    with State.Round = r; a certificate of a future height moves Controller.Height WITHOUT force-stopping
@@ -174,15 +179,15 @@ CDecide(h, r) ==
     /\ inst' = [inst EXCEPT ![h] = [st |-> "run", round |-> r, decided |-> TRUE, stopped |-> inst[h].stopped]]
     /\ cH' = IF h > cH THEN h ELSE cH
     /\ act' = [name |-> "CDecide", h |-> h, r |-> r]
-    /\ UNCHANGED <<rcs, tarm, tvars>>
+    /\ UNCHANGED <<rcs, tarm, tvars, cbad>>
 
 (* Controller.OnTimeout, check by check, then Instance.UponRoundTimeout *)
 TimeoutRes(h, r) ==
     LET i == inst[h] IN
     IF i.st = "none" THEN "nil"
-    ELSE IF r < i.round /\ Weaken # "ctlNoRoundCheck" THEN "old"
-    ELSE IF i.decided /\ Weaken # "ctlNoDecidedCheck" THEN "decided"
-    ELSE IF (i.stopped \/ i.round >= Cutoff) /\ Weaken # "ctlNoStopCheck" THEN "stopped"
+    ELSE IF r < i.round /\ wk # "ctlNoRoundCheck" THEN "old"
+    ELSE IF i.decided /\ wk # "ctlNoDecidedCheck" THEN "decided"
+    ELSE IF (i.stopped \/ i.round >= Cutoff) /\ wk # "ctlNoStopCheck" THEN "stopped"
     ELSE "bumped"
 Stale(h, r) == inst[h].st = "none" \/ inst[h].stopped \/ inst[h].decided \/ r < inst[h].round
 
@@ -197,6 +202,11 @@ COnTimeout(h, r) ==
                /\ tarm' = [n |-> tarm.n + 1, round |-> inst[h].round + 1]
                /\ UNCHANGED cH
           ELSE UNCHANGED cvars
+    /\ cbad' = IF Stale(h, r) /\ cvars' # cvars THEN "stale-changed"
+               ELSE IF ~Stale(h, r) /\ inst[h].round < Cutoff
+                       /\ ~(inst'[h].round = inst[h].round + 1 /\ rcs' = rcs + 1 /\ tarm'.round = inst'[h].round)
+                    THEN "live-not-moved"
+               ELSE cbad
     /\ UNCHANGED tvars
 
 Next == \/ \E r \in Rounds : Arm(r)
@@ -218,13 +228,16 @@ AfterCancelQuiet == \A f \in Fired : ~f.afterCancel
 (* the code's deadline is the reference deadline (conformance of the transcription, faithful spec only) *)
 DeadlineIsRef == \A w \in pending : w.due = w.ref
 
-(* C17, second sentence *)
-StaleNoChange == act.name = "COnTimeout" /\ act.stale => act.res # "bumped"
-StaleNoChangeStep ==
-    [][\A h \in Heights, r \in 1..MaxCRound : (COnTimeout(h, r) /\ Stale(h, r)) => UNCHANGED cvars]_vars
+(* C17, second sentence: a timeout event for an earlier round, another (unknown or superseded) height or a decided
+   instance changes nothing *)
+StaleNoChange == cbad # "stale-changed"
 (* conformance: a timeout for the current (or a later) round of a running, undecided instance moves it on
    (unless the instance reached instance.CutoffRound) *)
-CurrentBumps ==
+CurrentBumps == cbad # "live-not-moved"
+(* the same two statements as action properties (thorough configs; TLC's implied-action check is slow) *)
+StaleNoChangeStep ==
+    [][\A h \in Heights, r \in 1..MaxCRound : (COnTimeout(h, r) /\ Stale(h, r)) => UNCHANGED cvars]_vars
+CurrentBumpsStep ==
     [][\A h \in Heights, r \in 1..MaxCRound :
           (COnTimeout(h, r) /\ ~Stale(h, r) /\ inst[h].round < Cutoff) =>
                                                 /\ inst'[h].round = inst[h].round + 1
